@@ -104,8 +104,22 @@ impl Vm {
     })
   }
 
-  /// Create a new module
+  /// Create a new module as the root of a new package
   pub(super) fn module(&mut self, name: &str, path: &str) -> Ref<Module> {
+    let module = self.nested_module(name, path);
+    let hooks = GcHooks::new(self);
+    hooks.push_root(module);
+
+    let name = hooks.manage_str(name);
+    let package = hooks.manage(Package::new(name, module));
+    hooks.pop_roots(1);
+
+    self.packages.insert(name, package);
+    module
+  }
+
+  /// Create a new module that lives inside an existing package
+  fn nested_module(&mut self, name: &str, path: &str) -> Ref<Module> {
     let id = self.emitter.emit();
     let hooks = GcHooks::new(self);
 
@@ -116,12 +130,8 @@ impl Vm {
     hooks.push_root(module_class);
 
     let module = hooks.manage(Module::new(&hooks, module_class, path, id));
-    hooks.push_root(module);
+    hooks.pop_roots(1);
 
-    let package = hooks.manage(Package::new(name, module));
-    hooks.pop_roots(2);
-
-    self.packages.insert(name, package);
     module
   }
 
@@ -179,7 +189,7 @@ impl Vm {
             let file_id = self.files.upsert(path, source_content);
             self.pop_roots(1);
 
-            let module = self.module(&module_name, &path);
+            let module = self.nested_module(&module_name, &path);
             if let Err(err) = parent_module.insert_module(module) {
               match err {
                 ModuleInsertError::ModuleAlreadyExists => todo!(),
